@@ -62,3 +62,12 @@ Definition secp_n : Z := schnorr_n.
 Definition secp_G : point := Some (schnorr_gx, schnorr_gy).
 Definition bytes_from_int (x : Z) : option bytes :=        (* x.to_bytes(32, "big"): OverflowError outside 0..2^256-1 *)
   if (0 <=? x) && (x <? 2 ^ 256) then Some (be_bytes 32 x) else None.
+
+(* sympy.sqrt_mod(a, p, True) for p = 3 mod 4: all square roots of a modulo p in ascending order
+   (used to instantiate the `sqrts` parameter of the key / message models when they are extracted) *)
+Definition sqrt_mod_list (p a : Z) : list Z :=
+  let a' := a mod p in
+  let y := modpow a' ((p + 1) / 4) p in
+  if negb ((y * y) mod p =? a') then []
+  else if y =? 0 then [0]
+  else if y <? p - y then [y; p - y] else [p - y; y].
